@@ -33,9 +33,9 @@ type GEdge struct {
 }
 
 type GN struct {
-	Name   string
-	Edges  [2]GEdge     // array of structs holding references
-	Grid   [2][1]*GN    // nested arrays
+	Name  string
+	Edges [2]GEdge  // array of structs holding references
+	Grid  [2][1]*GN // nested arrays
 
 	Next   *GN
 	Kids   []*GN
@@ -63,8 +63,8 @@ type PEdge struct {
 }
 
 type PN struct {
-	Name   string
-	Edges  [2]PEdge
+	Name  string
+	Edges [2]PEdge
 
 	Kids   []*PN
 	M      map[string]*PN
@@ -84,7 +84,7 @@ type PCfg struct {
 // ---------- graph encoding (Go value -> model heap) and canonical rendering ----------
 
 type gEnc struct {
-	cells   []string       // cell text by address
+	cells   []string        // cell text by address
 	addr    map[uintptr]int // pointer/map identity -> address
 	strs    map[string]int
 	pending int
@@ -199,10 +199,10 @@ func (e *gEnc) enc(v reflect.Value) string {
 // exported fields.
 type gCanon struct {
 	skipUnexported bool
-	seen  map[uintptr]int
-	out   []string
-	strs  map[string]int
-	addrs map[uintptr]bool // pointers, maps, slice arrays reachable through exported fields
+	seen           map[uintptr]int
+	out            []string
+	strs           map[string]int
+	addrs          map[uintptr]bool // pointers, maps, slice arrays reachable through exported fields
 }
 
 func (c *gCanon) str(s string) int {
